@@ -125,6 +125,9 @@ def shard(a):
                     prop({'mod': name, 'value': core.enc(v[:i] + c + v[i + 1:]), 'opts': {}, 'clock': None}, res)
                 if i % 2 == 0 or i >= len(v) - 1:
                     prop({'mod': name, 'value': core.enc(v[:i] + c + v[i:]), 'opts': {}, 'clock': None}, res)
+    # the module's own string literals as a fuzzing dictionary: literal + digits to a range of lengths + one hostile character
+    for x in gen.literal_probes(name):
+        prop({'mod': name, 'value': core.enc(x), 'opts': {}, 'clock': None}, res)
     # very long inputs (the quantifier's "any length"): digit strings beyond the 4300-digit int() conversion limit, with
     # and without the prefixes / separators the module strips, plus long letter runs
     cc = name.split('.')[0].upper().rstrip('_') if '.' in name else ''
